@@ -32,12 +32,43 @@ WORDS = ["end", "if", "then", "do", "else", "function", "subroutine", "contains"
          "b'101'", "1.0d0", "_8", "%", "=>", "null()", "[", "(/"]
 
 
+SPECIAL_LINES = [
+    "include '../../include/model_physics_parameters_and_constants.inc'",
+    'include "a_rather_long_directory_name/and_a_long_file_name_as_well.h"',
+    "      include 'fixed_form_include_with_a_long_name_to_read.inc'",
+    '#include "some/quite/long/path/to/a/header_file_name.h"',
+    "#if defined(SOME_LONG_MACRO_NAME) && (ANOTHER_MACRO_NAME > 100) || !defined(THIRD)",
+    "#define A_FUNCTION_LIKE_MACRO(first_arg, second_arg) ((first_arg) + (second_arg) * 2)",
+    "#endif",
+    "!$omp parallel do default(shared) private(i, j, a_long_private_variable_name) schedule(static)",
+    "!$ call only_with_openmp(a_long_argument_name, another_long_argument_name_here)",
+    "!dir$ ivdep",
+]
+
+
 def mutate(r, text):
-    c = r.n(0, 13)
+    c = r.n(0, 16)
     n = len(text)
     if n < 2:
         return text + r.pick(PUNCT)
     lines = text.split("\n")
+    if c >= 14:
+        # edits aimed at one line: its last character, one of its quotes, or something appended to it
+        i = r.n(0, len(lines) - 1)
+        ln = lines[i]
+        k = r.n(0, 3)
+        if k == 0 and ln:
+            ln = ln[:-1]
+        elif k == 1 and ("'" in ln or '"' in ln):
+            pos = [j for j, ch in enumerate(ln) if ch in "'\""]
+            j = r.pick(pos)
+            ln = ln[:j] + ("'" if ln[j] == '"' else '"') + ln[j + 1:]
+        elif k == 2:
+            ln = ln + " " + r.pick(WORDS + PUNCT)
+        elif ln:
+            ln = ln[1:]
+        lines[i] = ln
+        return "\n".join(lines)
     if c == 0:
         i = r.n(0, n - 1)
         return text[:i] + text[i + 1:]
@@ -205,6 +236,13 @@ def build(rnd, tier, flags):
             a, b = origin.split("\n"), o2.split("\n")
             origin = "\n".join(a[:r.n(0, len(a))] + b[r.n(0, len(b) - 1):])
             meta["spliced"] = True
+        if r.chance(30):
+            # lines that are not statements: INCLUDE with long file names, cpp and OpenMP lines
+            a = origin.split("\n")
+            for _ in range(r.n(1, 2)):
+                a.insert(r.n(0, len(a)), r.pick(SPECIAL_LINES))
+            origin = "\n".join(a)
+            meta["special_lines"] = True
         src = origin
         nm = r.n(1, 3)
         for _ in range(nm):
